@@ -91,7 +91,9 @@ func (s *store) gc() {
 		if m.modified() {
 			err := m.persist(s.ss)
 			if err != nil {
+				// the value is still only in memory: keep it there and keep it marked modified
 				log.Println("GC: ", err)
+				return true
 			}
 		}
 		m.reset()
